@@ -25,7 +25,9 @@ ASSUMPTIONS = ["reference = the generated models; affine combination computed by
                "quantities (DESIGN 2.3)",
                "'the same system at alpha=0/1' includes the k-derivative of the Hamiltonian in the code's convention "
                "(R + t_j - t_i factors), i.e. the centres used by the Fourier machinery must be the interpolated ones",
-               "R-vectors on which all interpolated matrices vanish may be present or absent"]
+               "R-vectors on which all interpolated matrices vanish may be present or absent",
+               "evaluate_k(...,'energy') reports the mean of every multiplet of bands closer than degen_thresh=1e-4; the "
+               "reference is grouped the same way (a gap within 1e-7 of the threshold skips that observation)"]
 MIN_NONTRIVIAL = {"quick": 50, "thorough": 500}
 TOLR = 1e-12
 TOL = 1e-9
@@ -151,8 +153,8 @@ def check_plain(case):
                     raise Violation(b, f"{key}(k={k.tolist()}) at alpha={alpha} differs by {d:.2e}")
             Hk = (1 - alpha) * m0.Hk(k) + alpha * m1.Hk(k)
             E = np.array(wb.evaluate_k(s, k=k, quantities=["energy"]))
-            ref = np.linalg.eigvalsh(0.5 * (Hk + Hk.conj().T))
-            if E.shape != ref.shape or reldiff(E, ref) > TOL:
+            ref = spinsoc.tab_average(np.linalg.eigvalsh(0.5 * (Hk + Hk.conj().T)))  # evaluate_k averages multiplets
+            if ref is not None and (E.shape != ref.shape or reldiff(E, ref) > TOL):
                 b = f"endpoint{int(alpha)}-spectrum" if alpha in (0.0, 1.0) else "spectrum"
                 raise Violation(b, f"evaluate_k energies at alpha={alpha}, k={k.tolist()} differ by {reldiff(E, ref):.2e}")
         # the centres the Fourier machinery uses (checked last, recorded, raised after everything else was examined)
@@ -298,8 +300,8 @@ def check_soc(case):
         k = np.array(case["k"])
         Hk = (1 - alpha) * gm[0].Hk(k) + alpha * gm[1].Hk(k)
         E = np.array(wb.evaluate_k(s, k=k, quantities=["energy"]))
-        ref = np.linalg.eigvalsh(0.5 * (Hk + Hk.conj().T))
-        if E.shape != ref.shape or reldiff(E, ref) > TOL:
+        ref = spinsoc.tab_average(np.linalg.eigvalsh(0.5 * (Hk + Hk.conj().T)))  # evaluate_k averages multiplets
+        if ref is not None and (E.shape != ref.shape or reldiff(E, ref) > TOL):
             b = f"endpoint{int(alpha)}-spectrum" if alpha in (0.0, 1.0) else "spectrum"
             raise Violation(b, f"alpha={alpha}: {reldiff(E, ref):.2e}")
     if not _soc_unchanged(socs[0], snaps[0]) or not _soc_unchanged(socs[1], snaps[1]):
